@@ -14,6 +14,7 @@ import (
 	"strconv"
 	"strings"
 	"sync"
+	"syscall"
 	"time"
 
 	"github.com/jech/storrent/zzsim/simrt"
@@ -106,26 +107,26 @@ func Work(w io.Writer, scen string, base uint64, from, n int, tier string, logLi
 // ---- replay files --------------------------------------------------------------
 
 type ReplayFile struct {
-	Property   string      `json:"property"`
-	Scenario   string      `json:"scenario"`
-	Oracle     string      `json:"oracle"`
-	Class      string      `json:"class"`
-	Detail     string      `json:"detail"`
-	Tier       string      `json:"tier"`
-	SeedBase   uint64      `json:"seed_base"`
-	SeedIndex  int         `json:"seed_index"`
-	Tree       string      `json:"tree"`
-	Minimised  bool        `json:"minimised"`
-	OrigLen    int         `json:"original_choices"`
-	OrigNonzero int        `json:"original_nonzero_choices"`
-	Len        int         `json:"choices_len"`
-	Nonzero    int         `json:"nonzero_choices"`
-	Choices    [][2]uint32 `json:"choices_rle"` // pairs (zeros, value)
-	FatalOnly  bool        `json:"fatal_only,omitempty"` // replay by seed: the process dies
-	Trace      []string    `json:"schedule_and_fault_trace"`
-	Faults     map[string]int64 `json:"faults_fired"`
-	Stats      simrt.Stats `json:"stats"`
-	Note       string      `json:"note,omitempty"`
+	Property    string           `json:"property"`
+	Scenario    string           `json:"scenario"`
+	Oracle      string           `json:"oracle"`
+	Class       string           `json:"class"`
+	Detail      string           `json:"detail"`
+	Tier        string           `json:"tier"`
+	SeedBase    uint64           `json:"seed_base"`
+	SeedIndex   int              `json:"seed_index"`
+	Tree        string           `json:"tree"`
+	Minimised   bool             `json:"minimised"`
+	OrigLen     int              `json:"original_choices"`
+	OrigNonzero int              `json:"original_nonzero_choices"`
+	Len         int              `json:"choices_len"`
+	Nonzero     int              `json:"nonzero_choices"`
+	Choices     [][2]uint32      `json:"choices_rle"`          // pairs (zeros, value)
+	FatalOnly   bool             `json:"fatal_only,omitempty"` // replay by seed: the process dies
+	Trace       []string         `json:"schedule_and_fault_trace"`
+	Faults      map[string]int64 `json:"faults_fired"`
+	Stats       simrt.Stats      `json:"stats"`
+	Note        string           `json:"note,omitempty"`
 }
 
 // Replay runs a replay file in this process and returns the result.
@@ -246,19 +247,19 @@ func LoadKnown(path string) []KnownFinding {
 // ---- manager -------------------------------------------------------------------------
 
 type CheckOpts struct {
-	Prop      string
-	Tier      string
-	Seed      uint64
-	Budget    time.Duration
-	Workers   int
-	Batch     int
-	Evidence  string
-	Replays   string
-	Known     string
-	VerifDir  string
-	Tree      string
-	Self      string // path of this executable
-	MemLimitKB int
+	Prop         string
+	Tier         string
+	Seed         uint64
+	Budget       time.Duration
+	Workers      int
+	Batch        int
+	Evidence     string
+	Replays      string
+	Known        string
+	VerifDir     string
+	Tree         string
+	Self         string // path of this executable
+	MemLimitKB   int
 	ShrinkBudget time.Duration
 }
 
@@ -387,7 +388,11 @@ func Check(o CheckOpts) int {
 	var qmu sync.Mutex
 	var order []*Scenario
 	for _, sc := range scs {
-		for i := 0; i < sc.Weight; i++ {
+		wt := sc.Weight
+		if sc.Also[o.Prop] > 0 {
+			wt = sc.Also[o.Prop]
+		}
+		for i := 0; i < wt; i++ {
 			order = append(order, sc)
 		}
 	}
@@ -446,6 +451,9 @@ func Check(o CheckOpts) int {
 	// fatal worker deaths
 	for _, f := range a.fatal {
 		v := Violation{Prop: o.Prop, Oracle: "fatal", Class: fatalClass(f.Stderr), Detail: lastLines(f.Stderr, 30)}
+		if v.Class == "watchdog" {
+			v.Detail = "the run made no progress for 120 s of wall time: code that loops without ever blocking or reaching a yield point; running goroutines:\n" + runningStacks(f.Stderr)
+		}
 		sc := scenarios[f.Scen]
 		if !containsProp(sc.CrashTo, o.Prop) {
 			a.cross["crash/fatal/"+v.Class]++
@@ -462,7 +470,7 @@ func Check(o CheckOpts) int {
 			SeedBase: o.Seed, SeedIndex: f.Index, Tree: o.Tree, FatalOnly: true, Note: "the process under simulation died with a fatal runtime error; replay is by seed"}
 		if v.Class == "died" {
 			// no Go runtime failure in the worker's last words: it was killed or could not start
-			fmt.Printf("HARNESS-ERROR: a worker died at %s index %d without a runtime failure message: %s\n", f.Scen, f.Index, firstLine(lastLines(f.Stderr, 3)))
+			fmt.Printf("HARNESS-ERROR: a worker died at %s index %d without a runtime failure message: %q\n", f.Scen, f.Index, lastLines(f.Stderr, 3))
 			exit = 2
 			continue
 		}
@@ -480,7 +488,7 @@ func Check(o CheckOpts) int {
 		}
 		nviol++
 		violLines = append(violLines, fmt.Sprintf("VIOLATION property=%s replay=%s", o.Prop, path))
-		fmt.Printf("violation: %s: %s\n", v.Key(), firstLine(v.Detail))
+		fmt.Printf("violation: %s in %s index %d: %s\n", v.Key(), f.Scen, f.Index, firstLine(v.Detail))
 	}
 	for _, res := range a.viol {
 		for _, v := range res.Viol {
@@ -556,7 +564,33 @@ func lastLines(s string, n int) string {
 	return strings.Join(l, "\n")
 }
 
+// runningStacks extracts the stacks of the goroutines that were executing
+// from a SIGQUIT dump.
+func runningStacks(dump string) string {
+	var out []string
+	keep := 0
+	for _, l := range strings.Split(dump, "\n") {
+		if strings.HasPrefix(l, "goroutine ") {
+			keep = 0
+			if strings.Contains(l, "[running") || strings.Contains(l, "[runnable") {
+				keep = 24
+			}
+		}
+		if keep > 0 && len(out) < 80 {
+			out = append(out, l)
+			keep--
+		}
+	}
+	if len(out) == 0 {
+		return "(no goroutine dump)"
+	}
+	return strings.Join(out, "\n")
+}
+
 func fatalClass(stderr string) string {
+	if strings.Contains(stderr, "\nwatchdog: run made no progress") {
+		return "watchdog"
+	}
 	for _, l := range strings.Split(stderr, "\n") {
 		if strings.HasPrefix(l, "fatal error:") {
 			return strings.TrimSpace(strings.TrimPrefix(l, "fatal error:"))
@@ -635,6 +669,7 @@ func runBatch(o CheckOpts, a *agg, sc *Scenario, from, n int, known []KnownFindi
 	gotB := false
 	lastProgress := time.Now()
 	var pmu sync.Mutex
+	killedBy := "" // (not written into stderr: the process's output is still being copied there)
 	done := make(chan struct{})
 	// watchdog: a run that takes more than 120 s of wall time is stuck in
 	// code that never yields
@@ -650,7 +685,15 @@ func runBatch(o CheckOpts, a *agg, sc *Scenario, from, n int, known []KnownFindi
 				stuck := time.Since(lastProgress) > 120*time.Second
 				pmu.Unlock()
 				if stuck {
-					stderr.WriteString("\nwatchdog: run made no progress for 120 s of wall time; worker killed\n")
+					pmu.Lock()
+					killedBy = "\nwatchdog: run made no progress for 120 s of wall time; worker killed\n"
+					pmu.Unlock()
+					// ask the Go runtime for its goroutine stacks first: they say where it loops
+					cmd.Process.Signal(syscall.SIGQUIT)
+					select {
+					case <-done:
+					case <-time.After(10 * time.Second):
+					}
 					cmd.Process.Kill()
 					return
 				}
@@ -719,7 +762,9 @@ func runBatch(o CheckOpts, a *agg, sc *Scenario, from, n int, known []KnownFindi
 	close(done)
 	if !gotB && err != nil {
 		a.mu.Lock()
-		a.fatal = append(a.fatal, fatalRec{Scen: sc.Name, Index: last, Stderr: stderr.String()})
+		pmu.Lock()
+		a.fatal = append(a.fatal, fatalRec{Scen: sc.Name, Index: last, Stderr: stderr.String() + killedBy})
+		pmu.Unlock()
 		a.mu.Unlock()
 		if containsProp(sc.CrashTo, o.Prop) {
 			setStop()
@@ -930,7 +975,14 @@ func shrink(o CheckOpts, scen string, index int, choices []uint32, v Violation) 
 	}
 	// final confirmation gives the result to report
 	if !check(best) {
+		if os.Getenv("VERIF_DEBUG") != "" {
+			res, died := cl.try(scen, o.Tier, index, best)
+			fmt.Fprintf(os.Stderr, "shrink: final confirmation failed: %d choices, died=%v res=%+v\n", len(best), died, res)
+		}
 		return nil, nil, cl.runs
+	}
+	if best == nil {
+		best = []uint32{} // the all-default run fails: an empty list, not "no result"
 	}
 	return best, bestRes, cl.runs
 }
@@ -1047,29 +1099,29 @@ func writeEvidence(o CheckOpts, a *agg, scs []*Scenario, explored, wall time.Dur
 			"rule": "one evaluation = one simulated run (one seed = one schedule + fault sequence + generated workload, executed on the real instrumented code). " +
 				"A run is non-trivial when the scenario's progress probe fired (e.g. a piece was verified, a handshake completed, a message was decoded) and, where the scenario injects faults or contention, at least one fault fired or a goroutine was preempted/contended. " +
 				"distinct_nontrivial counts distinct values, among non-trivial runs, of a 64-bit hash of the whole sequence of scheduler decisions (goroutine id, yield site) of the run, summed over scenarios.",
-			"samples":                   samples,
-			"nontrivial_runs":           nontriv,
-			"runs_with_faults":          withFaults,
-			"runs_per_hour":             float64(total) / hours,
-			"seeds_per_hour":            float64(total) / hours,
-			"simulated_seconds_covered": simSec,
-			"scheduler_steps":           steps,
-			"choices_drawn":             choices,
-			"preemptions":               preempts,
-			"max_runnable_goroutines":   maxG,
-			"faults_fired":              faults,
-			"runs_in_which_fault_fired": faultRuns,
-			"probes_hit":                probes,
-			"run_end_reasons":           ends,
-			"inconclusive_caps":         a.inconcl,
+			"samples":                            samples,
+			"nontrivial_runs":                    nontriv,
+			"runs_with_faults":                   withFaults,
+			"runs_per_hour":                      float64(total) / hours,
+			"seeds_per_hour":                     float64(total) / hours,
+			"simulated_seconds_covered":          simSec,
+			"scheduler_steps":                    steps,
+			"choices_drawn":                      choices,
+			"preemptions":                        preempts,
+			"max_runnable_goroutines":            maxG,
+			"faults_fired":                       faults,
+			"runs_in_which_fault_fired":          faultRuns,
+			"probes_hit":                         probes,
+			"run_end_reasons":                    ends,
+			"inconclusive_caps":                  a.inconcl,
 			"goroutines_left_blocked_at_run_end": leftover,
-			"per_scenario":              perScen,
-			"cross_property_observations": cross,
-			"known_findings_matched":    a.knownHits,
-			"worker_batches":            a.batches,
-			"workers":                   o.Workers,
-			"exploration_wall_s":        explored.Seconds(),
-			"tree":                      o.Tree,
+			"per_scenario":                       perScen,
+			"cross_property_observations":        cross,
+			"known_findings_matched":             a.knownHits,
+			"worker_batches":                     a.batches,
+			"workers":                            o.Workers,
+			"exploration_wall_s":                 explored.Seconds(),
+			"tree":                               o.Tree,
 			"components": map[string]any{
 				"real":  componentsReal,
 				"stubs": componentsStub,
